@@ -115,8 +115,12 @@ class World:
             "os",
             seams.Forward(os, {"stat": y("os.stat", os.stat)}, {"isfile": y("isfile", os.path.isfile)}),
         )
+        # the lookup creates its own lock, whenever it does so: threading.Lock as mako.lookup sees it is the
+        # scheduler's lock (the harness does not touch the lookup's attributes)
+        import threading as _threading
+
+        self.sm.set(mlookup, "threading", seams.Forward(_threading, {"Lock": s.lock, "RLock": s.lock}))
         self.lookup = mlookup.TemplateLookup(directories=[self.dir], collection_size=size)
-        self.lookup._mutex = s.lock()
         if not fine:
             self.lookup._collection = _ydict(s, self.lookup._collection, size, mutil)
 
@@ -151,6 +155,20 @@ def _ydict(s, old, size, mutil):
             s.yield_point("coll.pop")
             return base.pop(self, *a)
 
+    if size != -1:
+        # reading an entry's recency stamp is a scheduling point (the pruning pass reads every stamp while
+        # other threads may add or remove entries)
+        class YItem(base._Item):
+            def _get(self):
+                s.yield_point("item.timestamp")
+                return self.__dict__["_ts"]
+
+            def _set(self, v):
+                self.__dict__["_ts"] = v
+
+            timestamp = property(_get, _set)
+
+        YColl._Item = YItem
     return YColl() if size == -1 else YColl(size)
 
 
@@ -406,6 +424,9 @@ class RenderWorld:
         self.cc = cc
         mlexer._regexp_cache.clear()
         self.files = []
+        import threading as _threading
+
+        self.sm.set(mlookup, "threading", seams.Forward(_threading, {"Lock": s.lock, "RLock": s.lock}))
         if lru:
             # a bounded lookup over files (its template cache and its URI cache are both LRU caches of size 1:
             # every render evicts and reloads); same templates, same decoys
@@ -418,10 +439,8 @@ class RenderWorld:
                 os.utime(pth, (990, 990))
                 self.files.append(pth)
             self.lookup = mlookup.TemplateLookup(directories=[root], collection_size=1, cache_impl="c16dict", cache_args={"type": "memory", "region": "default"})
-            self.lookup._mutex = s.lock()
             return
         self.lookup = mlookup.TemplateLookup(cache_impl="c16dict", cache_args={"type": "memory", "region": "default"})
-        self.lookup._mutex = s.lock()
         # the templates live in a sub-directory and name each other relatively, so that URI adjustment matters;
         # same-named decoys answer to the unadjusted names
         for d in ("base.html", "ns.html", "inc.html"):
